@@ -61,6 +61,14 @@ func c15BPWrite(r *rng, src reg.Register) *ir.Instruction {
 		}
 		return asSpec(reg.RAX, s)
 	}
+	// half of the time the instruction is drawn from the shapes of the form sweep (every row of the form table that
+	// can have a view of BP as destination, the "looks like a no-op" shapes included), register-only ones, with the
+	// other general-purpose operands replaced by views of src
+	if len(c15Pool.write) > 0 && r.chance(1, 2) {
+		if inst := pick(r, c15Pool.write).instWith(srcOf); inst != nil {
+			return inst
+		}
+	}
 	switch r.intn(20) {
 	case 16: // BP as the SECOND output register of the instruction
 		return c15Inst("XCHGQ", v(reg.S64), srcOf(reg.S64))
@@ -109,6 +117,11 @@ func c15BPWrite(r *rng, src reg.Register) *ir.Instruction {
 type c15Meta struct {
 	gen        string
 	authorBP   int
+	readsBP    int
+	chain      bool
+	chainOnly  bool   // the copy is the only write of the chain's register
+	chainT     reg.ID // copy chain: the temporary and the virtual it is copied to
+	chainV     reg.ID
 	nvirt      int
 	executable bool
 }
@@ -141,7 +154,32 @@ func c15GenDirect(r *rng, name string) (*ir.Function, c15Meta) {
 			fn.AddInstruction(inst)
 		}
 	}
+	// copy chain: the last virtual is not defined by a constant but copied (MOVL / LEAL 0(t) / MOVWLZX) from a temporary that dies at the copy: source and destination do not interfere, so under pressure the
+	// allocator gives BOTH the one register left — BP: an allocator-made `MOVL BP, BP`
+	chain := k >= 2 && r.chance(1, 3)
 	for i, v := range vs {
+		if chain && i == k-1 {
+			t := col.GP64()
+			if r.chance(2, 3) {
+				add(c15Inst("MOVQ", operand.I32(0x7777), t))
+			} else {
+				// the temporary is never written (whatever the register holds on entry is copied): the copy is then the
+				// ONLY instruction of the function that writes the register both get
+				m.chainOnly = true
+			}
+			// (only copies that are NOT a no-op when both ends get one register: 32-bit destinations zero-extend;
+			// `MOVQ BP, BP` cannot modify BP and a scan that leaves it out is not wrong)
+			switch r.intn(6) {
+			case 0, 1, 2, 3:
+				add(c15Inst("MOVL", asSpec(t, reg.S32), asSpec(v, reg.S32)))
+			case 4:
+				add(c15Inst("LEAL", operand.Mem{Base: t}, asSpec(v, reg.S32)))
+			default:
+				add(c15Inst("MOVWLZX", asSpec(t, reg.S16), asSpec(v, reg.S32)))
+			}
+			m.chain, m.chainT, m.chainV = true, t.ID(), v.ID()
+			continue
+		}
 		add(c15Inst("MOVQ", operand.I32(int32(0x1111*(i+1))), v))
 	}
 	wantBP := k <= 14 && r.chance(1, 2)
@@ -168,6 +206,15 @@ func c15GenDirect(r *rng, name string) (*ir.Function, c15Meta) {
 		case 8:
 			add(c15Inst("MOVBQZX", asSpec(a, reg.S8L), b))
 		case 9:
+			if len(c15Pool.read) > 0 && r.chance(1, 2) {
+				// an instruction that only READS a view of BP (source register): must not make the function an error
+				x := a
+				if inst := pick(r, c15Pool.read).instWith(func(s reg.Spec) operand.Op { return asSpec(x, s) }); inst != nil {
+					add(inst)
+					m.readsBP++
+					break
+				}
+			}
 			add(c15Inst("BSWAPQ", b))
 		case 10, 11:
 			if wantBP {
@@ -296,6 +343,42 @@ func c15LocalSize(r *rng, aligned bool, nosplit bool, executable bool) int {
 	}
 }
 
+// c15CountChainOnBP: did the allocator give BOTH ends of the copy chain the base pointer (an allocator-made self-move)?
+func c15CountChainOnBP(fn *ir.Function, m c15Meta, stats map[string]int, prefix string) {
+	if m.chain && fn.Allocation != nil && fn.Allocation[m.chainT] == reg.RBP.ID() && fn.Allocation[m.chainV] == reg.RBP.ID() {
+		stats[prefix+"allocator_made_bp_self_copy"]++
+		if m.chainOnly && m.authorBP == 0 {
+			stats[prefix+"allocator_made_bp_self_copy_only_write"]++
+		}
+	}
+}
+
+// c15CountSelfOnBP counts functions with an instruction that has a view of BP as both source and destination
+// (author-named or allocator-made), by the width of the destination.
+func c15CountSelfOnBP(fn *ir.Function, stats map[string]int, prefix string) {
+	seen := map[string]bool{}
+	for _, i := range fn.Instructions() {
+		if len(i.Operands) != 2 {
+			continue
+		}
+		d, ok := i.Operands[1].(reg.Register)
+		if !ok || !c15IsHWBP(d) {
+			continue
+		}
+		src := false
+		switch o := i.Operands[0].(type) {
+		case reg.Register:
+			src = c15IsHWBP(o)
+		case operand.Mem:
+			src = o.Base != nil && c15IsHWBP(o.Base)
+		}
+		if key := fmt.Sprintf("%sbp_onto_itself:size%d", prefix, d.Size()); src && !seen[key] {
+			seen[key] = true
+			stats[key]++
+		}
+	}
+}
+
 func c15HasCall(fn *ir.Function) bool {
 	for _, i := range fn.Instructions() {
 		if i.Opcode == "CALL" {
@@ -346,7 +429,11 @@ func c15Ensure(o *out, fn *ir.Function, stats map[string]int) (ok bool, clob boo
 	body := fmt.Sprintf("%d %d", attrs, ls)
 	regs := encRegs(outs)
 	o.emit("bp "+body+" "+regs, outcome)
-	o.emit("accept-bp "+body+" "+b01(hasCall)+" "+regs+" => "+outcome, "ok")
+	re, _ := c15RebuiltOuts(fn)
+	for _, r := range re {
+		clob = clob || c15IsHWBP(r)
+	}
+	o.emit("accept-bp "+body+" "+b01(hasCall)+" "+encRegs(append(append([]reg.Register{}, outs...), re...))+" => "+outcome, "ok")
 	stats["ensure_requests"]++
 	if clob {
 		stats["ensure_clobbered"]++
@@ -479,6 +566,7 @@ func c15Pipeline(fn *ir.Function, stats map[string]int) string {
 			break
 		}
 	}
+	c15CountSelfOnBP(fn, stats, "")
 	return "ok"
 }
 
@@ -599,9 +687,11 @@ func c15CompileFile(o *out, specs []c15Spec, viaCtx bool, db *formsDB, tier stri
 		attrs, ls int
 	}
 	var before []pre
+	var metas []c15Meta
 	for _, s := range specs {
-		fn, _ := c15Make(s, db, tier)
+		fn, m := c15Make(s, db, tier)
 		before = append(before, pre{int(fn.Attributes), fn.LocalSize})
+		metas = append(metas, m)
 	}
 	compile := func(specs []c15Spec) (*ir.File, error, bool) {
 		file, err := c15BuildFile(specs, viaCtx, db, tier)
@@ -659,6 +749,21 @@ func c15CompileFile(o *out, specs []c15Spec, viaCtx bool, db *formsDB, tier stri
 			for _, r := range c15Outs(fn) {
 				cl = cl || c15IsHWBP(r)
 			}
+			if !cl && i < len(ctl) {
+				// the clean-up passes of Compile may have deleted the instruction that wrote BP (an allocator-made
+				// `MOVQ BP, BP`, pruned as a self-move AFTER the base-pointer pass saw it): look at the function as the
+				// base-pointer pass sees it (explicit pass sequence, no clean-up)
+				if pfn, _ := c15Make(ctl[i], db, tier); c15Pipeline(pfn, map[string]int{}) == "ok" {
+					for _, r := range c15Outs(pfn) {
+						cl = cl || c15IsHWBP(r)
+					}
+					if cl {
+						fn = pfn
+						cfns[i] = pfn
+						stats[tag+":refusal_explained_before_cleanup"]++
+					}
+				}
+			}
 			if cl {
 				pickFn = i
 				break
@@ -691,13 +796,26 @@ func c15CompileFile(o *out, specs []c15Spec, viaCtx bool, db *formsDB, tier stri
 			}
 			cl = cl || c15IsHWBP(r)
 		}
+		// the destinations read off the bound OPERANDS through the form table (not the instruction's Outputs list)
+		re, complete := c15RebuiltOuts(fn)
+		for _, r := range re {
+			if c15IsHWBP(r) {
+				cl = true
+				stats[tag+":bp_destination_by_operands"]++
+				break
+			}
+		}
 		res.clob = append(res.clob, cl)
 		if !bound {
-			// Compile succeeded and left a virtual register: not judged here (C01), counted
+			// Compile succeeded and left a virtual register in an Outputs list (C01's business as such), counted; the
+			// function is judged all the same when all its OPERANDS are bound: what it writes is then known
 			stats[tag+":unbound_after_compile"]++
-			continue
+			if !complete {
+				continue
+			}
+			stats[tag+":unbound_after_compile_judged_by_operands"]++
 		}
-		line := fmt.Sprintf("accept-bp %d %d %s %s => ok %d", before[i].attrs, before[i].ls, b01(c15HasCall(fn)), encRegs(outs), fn.LocalSize)
+		line := fmt.Sprintf("accept-bp %d %d %s %s => ok %d", before[i].attrs, before[i].ls, b01(c15HasCall(fn)), encRegs(append(append([]reg.Register{}, outs...), re...)), fn.LocalSize)
 		if t, ok := sizes[fn.Name]; ok && perr == nil {
 			line += " " + t
 			stats[tag+":judged_text_lines"]++
@@ -720,6 +838,8 @@ func c15CompileFile(o *out, specs []c15Spec, viaCtx bool, db *formsDB, tier stri
 				break
 			}
 		}
+		c15CountSelfOnBP(fn, stats, tag+":")
+		c15CountChainOnBP(fn, metas[i], stats, tag+":")
 	}
 	if len(fns) > 1 {
 		stats[tag+":judged_multi_function_files"]++
@@ -784,6 +904,8 @@ func init() {
 		f := newStdFlags("c15")
 		nexec := f.fs.Int("exec", 0, "number of compiled functions to assemble and execute through the trampoline")
 		execdir := f.fs.String("execdir", "exec", "scratch directory of the execution sample")
+		forms := f.fs.Bool("forms", false, "form sweep: every instruction shape of the form table that touches a view of BP (c15forms.go)")
+		formexec := f.fs.Int("formexec", -1, "form sweep: number of shapes executed (-1: every executable shape)")
 		if err := f.fs.Parse(args); err != nil {
 			return err
 		}
@@ -798,15 +920,43 @@ func init() {
 			if err != nil {
 				return err
 			}
+			formKeys := map[string]bool{}
 			for _, l := range lines {
 				if strings.HasPrefix(l, "accept-bp-exec") {
 					continue // measured lines cannot be rebuilt from the request
+				}
+				if strings.HasPrefix(l, "accept-bp-form ") {
+					// the shape is rebuilt from its key, measured and compiled again
+					if ts := strings.Fields(l); len(ts) > 1 {
+						formKeys[ts[1]] = true
+					}
+					continue
 				}
 				fn, err := c15FromRequest(l)
 				if err != nil {
 					return err
 				}
 				c15Ensure(o, fn, stats)
+			}
+			if len(formKeys) > 0 {
+				db, err := loadForms(*f.repo)
+				if err != nil {
+					return err
+				}
+				var shapes []*c15Shape
+				for _, s := range c15Shapes(db, stats) {
+					if formKeys[s.key] {
+						shapes = append(shapes, s)
+						delete(formKeys, s.key)
+					}
+				}
+				for k := range formKeys {
+					return fmt.Errorf("accept-bp-form: no shape with key %q in the form table", k)
+				}
+				if err := c15FormSweep(o, newRng(*f.seed), shapes, -1, *execdir+"-forms-replay", stats); err != nil {
+					stats["formsweep:error"]++
+					o.emit("accept-bp-exec-failed "+hexs(err.Error()), "ok")
+				}
 			}
 			return writeJSON(*f.stats, stats)
 		}
@@ -815,6 +965,16 @@ func init() {
 			return err
 		}
 		r := newRng(*f.seed)
+		// the form sweep draws its own random stream (a fork made first, so that switching it on does not move the
+		// other streams... it is forked from a separate generator seeded alike)
+		var shapes []*c15Shape
+		if *forms {
+			shapes = c15Shapes(db, stats)
+			if err := c15FormSweep(o, newRng(*f.seed^0x5eedf0f0), shapes, *formexec, *execdir+"-forms", stats); err != nil {
+				stats["formsweep:error"]++
+				o.emit("accept-bp-exec-failed "+hexs(err.Error()), "ok")
+			}
+		}
 		// fixed cases first: the witnesses of finding F18 (a frame the assembler truncates) through every route
 		for _, ls := range []int{1 << 31, 1<<32 + 8} {
 			for _, a := range []attr.Attribute{0, attr.NOSPLIT} {
@@ -867,9 +1027,13 @@ func init() {
 				if m.authorBP > 0 {
 					stats["author_named_bp"]++
 				}
+				if m.readsBP > 0 {
+					stats["author_reads_bp"]++
+				}
 				switch st := c15Pipeline(fn, stats); st {
 				case "ok":
 					stats["allocation:ok"]++
+					c15CountChainOnBP(fn, m, stats, "")
 					c15Ensure(o, fn, stats)
 				case "panic":
 					o.emit(fmt.Sprintf("accept-bp %d %d 0 0 => panic", int(fn.Attributes), fn.LocalSize), "ok")
